@@ -20,6 +20,7 @@ func init() {
 		mv := fs.Bool("mv", false, "observe the multivariant playlist (C16)")
 		noemit := fs.Bool("noemit", false, "do not decode segments")
 		tokens := fs.Bool("tokens", false, "log every distinct playlist served as tokens (C15)")
+		delta := fs.Bool("delta", false, "compare delta updates with the full playlist of the same instant (C06)")
 		fs.Parse(args)
 		b, err := os.ReadFile(*scripts)
 		if err != nil {
@@ -34,7 +35,7 @@ func init() {
 			return err
 		}
 		for i, sc := range scs {
-			if err := muxdrv.RunScript(w, i, sc, muxdrv.Options{Probe: *probe, MV: *mv, NoEmit: *noemit, Tokens: *tokens}); err != nil {
+			if err := muxdrv.RunScript(w, i, sc, muxdrv.Options{Probe: *probe, MV: *mv, NoEmit: *noemit, Tokens: *tokens, Delta: *delta}); err != nil {
 				return err
 			}
 		}
